@@ -178,7 +178,9 @@ var c11HostileKinds = []string{"comment not UTF-8", "creator not UTF-8", "matche
 	"learned by gossip: end before start",
 	"learned by gossip: no matchers at all",
 	"learned by gossip: a label name only the UTF-8 matcher mode knows",
-	"learned by gossip: empty creator and comment, zero start"}
+	"learned by gossip: empty creator and comment, zero start",
+	"learned by gossip: a regular expression that does not compile",
+	"learned by gossip: an id that is not a UUID, 300 bytes long"}
 
 func c11Hostile(t *testing.T, kind, when int) (desc string) {
 	synctest.Test(t, func(t *testing.T) {
@@ -248,6 +250,10 @@ func c11Hostile(t *testing.T, kind, when int) (desc string) {
 				h.MatcherSets[0].Matchers[0].Name = "host name\u00e9"
 			case 11:
 				h.CreatedBy, h.Comment, h.StartsAt = "", "", nil
+			case 12:
+				h.MatcherSets[0].Matchers[0].Type, h.MatcherSets[0].Matchers[0].Pattern = pb.Matcher_REGEXP, "a(b"
+			case 13:
+				h.Id = strings.Repeat("not-a-uuid/", 28)
 			}
 			b, err := vMarshalMesh(&pb.MeshSilence{Silence: h, ExpiresAt: ts(now.Add(2 * time.Hour))})
 			if err != nil {
